@@ -374,6 +374,47 @@ func materialiseOnce(r *hlib.Rand, l layout, spn int) []epSpec {
 	return out
 }
 
+// largeLayout draws 65..130 endpoints in 2..4 zones: every zone at most 64 (bigZone = false) or one
+// zone above 64 (bigZone = true).
+func largeLayout(r *hlib.Rand, bigZone bool) layout {
+	nz := r.Range(2, 4)
+	total := r.Range(65, 130)
+	var l layout
+	if bigZone && nz <= 3 {
+		big := r.Range(65, total-2*(nz-1))
+		if big > 100 {
+			big = 100
+		}
+		l = append(l, big)
+		rest := total - big
+		for z := 1; z < nz; z++ {
+			x := rest / (nz - z)
+			if x < 2 {
+				x = 2
+			}
+			l = append(l, x)
+			rest -= x
+		}
+		return l
+	}
+	for total > 64*nz {
+		total--
+	}
+	rest := total
+	for z := 0; z < nz; z++ {
+		x := rest / (nz - z)
+		if z+1 < nz {
+			x += r.Range(-3, 3)
+		}
+		if x > 64 {
+			x = 64
+		}
+		l = append(l, x)
+		rest -= x
+	}
+	return l
+}
+
 func layoutKey(l layout) string {
 	s := append([]int(nil), l...)
 	sort.Ints(s)
